@@ -6,7 +6,10 @@
 //!        macro (`only_admin`, `only_owner`, `only_role`, `has_role`, `has_any_role`,
 //!        `only_any_role`), expanded by the tree's macro crate;
 //!   nft  `examples/nft-access-control` compiled from the working tree (#[path]);
-//!   own  `examples/ownable` compiled from the working tree (#[path]).
+//!   own  `examples/ownable` compiled from the working tree (#[path]);
+//!   stk  a harness contract `stk::Stacked2` whose sixteen entry points stack TWO role guards (every ordered
+//!        pair of `has_role`, `only_role`, `has_any_role`, `only_any_role`), expanded by the tree's macro
+//!        crate; label `kind=stk`, op lines `stk ..`, its own model / monitor (OZ/Model/AccessStk*.lean).
 //! Every call is a real invocation with an exact authorization subset; after every call all
 //! getters are read back over the whole small universe, including `get_role_member(count)`.
 use ozharness::*;
@@ -111,6 +114,248 @@ impl AccessControl for Lib {}
 
 #[contractimpl(contracttrait)]
 impl Ownable for Lib {}
+
+/// machine `stk` ("stacked role guards"): every entry point stacks TWO role guards of `stellar_macros`,
+/// one for every ordered pair (outer, inner) of `has_role` (hr), `only_role` (or), `has_any_role` (ha),
+/// `only_any_role` (oa); the entry point `<outer>_<inner>` writes `<outer>` ABOVE `<inner>`. The outer guard
+/// is always on the parameter `a` with the role "minter" (any-role macros: ["minter", "r2"]); the inner
+/// guard is on the parameter `b` — for `oa_hr`, `hr_oa`, `or_oa`, `ha_ha` on `a` again (same parameter) —
+/// with the role "burner" (any-role macros: ["burner", "r2"]). Every entry point adds 1 to the counter and
+/// returns it. `grant` / `revoke` (the admin's authorization, one of the three roles) set up who holds what.
+mod stk {
+    use soroban_sdk::{contract, contractimpl, symbol_short, Address, Env, Symbol};
+    use stellar_access::access_control as acl;
+    use stellar_macros::{has_any_role, has_role, only_any_role, only_role};
+
+    pub const COUNTER: Symbol = symbol_short!("COUNTER");
+
+    #[contract]
+    pub struct Stacked2;
+
+    fn bump(e: &Env) -> i32 {
+        let c: i32 = e.storage().instance().get(&COUNTER).expect("counter should be set");
+        let c = c.checked_add(1).expect("counter overflow");
+        e.storage().instance().set(&COUNTER, &c);
+        c
+    }
+
+    fn known_role(e: &Env, role: &Symbol) {
+        if !["minter", "burner", "r2"].iter().any(|r| Symbol::new(e, r) == *role) {
+            panic!("not a role of this contract");
+        }
+    }
+
+    #[contractimpl]
+    impl Stacked2 {
+        pub fn __constructor(e: &Env, admin: Address) {
+            acl::set_admin(e, &admin);
+            e.storage().instance().set(&COUNTER, &0i32);
+        }
+
+        pub fn counter(e: &Env) -> i32 {
+            e.storage().instance().get(&COUNTER).expect("counter should be set")
+        }
+
+        pub fn holds(e: &Env, account: Address, role: Symbol) -> bool {
+            acl::has_role(e, &account, &role).is_some()
+        }
+
+        pub fn grant(e: &Env, account: Address, role: Symbol) {
+            let admin = acl::enforce_admin_auth(e);
+            known_role(e, &role);
+            acl::grant_role_no_auth(e, &account, &role, &admin);
+        }
+
+        pub fn revoke(e: &Env, account: Address, role: Symbol) {
+            let admin = acl::enforce_admin_auth(e);
+            known_role(e, &role);
+            acl::revoke_role_no_auth(e, &account, &role, &admin);
+        }
+
+        // ---- outer: has_role ----
+        #[has_role(a, "minter")]
+        #[has_role(b, "burner")]
+        pub fn hr_hr(e: &Env, a: Address, b: Address) -> i32 {
+            bump(e)
+        }
+
+        #[has_role(a, "minter")]
+        #[only_role(b, "burner")]
+        pub fn hr_or(e: &Env, a: Address, b: Address) -> i32 {
+            bump(e)
+        }
+
+        #[has_role(a, "minter")]
+        #[has_any_role(b, ["burner", "r2"])]
+        pub fn hr_ha(e: &Env, a: Address, b: Address) -> i32 {
+            bump(e)
+        }
+
+        #[has_role(a, "minter")]
+        #[only_any_role(a, ["burner", "r2"])]
+        pub fn hr_oa(e: &Env, a: Address, _b: Address) -> i32 {
+            bump(e)
+        }
+
+        // ---- outer: only_role ----
+        #[only_role(a, "minter")]
+        #[has_role(b, "burner")]
+        pub fn or_hr(e: &Env, a: Address, b: Address) -> i32 {
+            bump(e)
+        }
+
+        #[only_role(a, "minter")]
+        #[only_role(b, "burner")]
+        pub fn or_or(e: &Env, a: Address, b: Address) -> i32 {
+            bump(e)
+        }
+
+        #[only_role(a, "minter")]
+        #[has_any_role(b, ["burner", "r2"])]
+        pub fn or_ha(e: &Env, a: Address, b: Address) -> i32 {
+            bump(e)
+        }
+
+        #[only_role(a, "minter")]
+        #[only_any_role(a, ["burner", "r2"])]
+        pub fn or_oa(e: &Env, a: Address, _b: Address) -> i32 {
+            bump(e)
+        }
+
+        // ---- outer: has_any_role ----
+        #[has_any_role(a, ["minter", "r2"])]
+        #[has_role(b, "burner")]
+        pub fn ha_hr(e: &Env, a: Address, b: Address) -> i32 {
+            bump(e)
+        }
+
+        #[has_any_role(a, ["minter", "r2"])]
+        #[only_role(b, "burner")]
+        pub fn ha_or(e: &Env, a: Address, b: Address) -> i32 {
+            bump(e)
+        }
+
+        #[has_any_role(a, ["minter", "r2"])]
+        #[has_any_role(a, ["burner", "r2"])]
+        pub fn ha_ha(e: &Env, a: Address, _b: Address) -> i32 {
+            bump(e)
+        }
+
+        #[has_any_role(a, ["minter", "r2"])]
+        #[only_any_role(b, ["burner", "r2"])]
+        pub fn ha_oa(e: &Env, a: Address, b: Address) -> i32 {
+            bump(e)
+        }
+
+        // ---- outer: only_any_role ----
+        #[only_any_role(a, ["minter", "r2"])]
+        #[has_role(a, "burner")]
+        pub fn oa_hr(e: &Env, a: Address, _b: Address) -> i32 {
+            bump(e)
+        }
+
+        #[only_any_role(a, ["minter", "r2"])]
+        #[only_role(b, "burner")]
+        pub fn oa_or(e: &Env, a: Address, b: Address) -> i32 {
+            bump(e)
+        }
+
+        #[only_any_role(a, ["minter", "r2"])]
+        #[has_any_role(b, ["burner", "r2"])]
+        pub fn oa_ha(e: &Env, a: Address, b: Address) -> i32 {
+            bump(e)
+        }
+
+        #[only_any_role(a, ["minter", "r2"])]
+        #[only_any_role(b, ["burner", "r2"])]
+        pub fn oa_oa(e: &Env, a: Address, b: Address) -> i32 {
+            bump(e)
+        }
+    }
+}
+
+/// the four role-guard macros that take a caller argument
+#[derive(Clone, Copy, PartialEq, Debug)]
+enum Mac {
+    Hr,
+    Or,
+    Ha,
+    Oa,
+}
+
+impl Mac {
+    fn tag(self) -> &'static str {
+        match self {
+            Mac::Hr => "hr",
+            Mac::Or => "or",
+            Mac::Ha => "ha",
+            Mac::Oa => "oa",
+        }
+    }
+    fn any(self) -> bool {
+        matches!(self, Mac::Ha | Mac::Oa)
+    }
+    fn auth(self) -> bool {
+        matches!(self, Mac::Or | Mac::Oa)
+    }
+}
+
+const MACS: [Mac; 4] = [Mac::Hr, Mac::Or, Mac::Ha, Mac::Oa];
+
+/// a stacked entry point of `stk::Stacked2`: the attribute written on top, the one below it
+#[derive(Clone, Copy, PartialEq, Debug)]
+struct StkFn {
+    outer: Mac,
+    inner: Mac,
+}
+
+impl StkFn {
+    fn all() -> StdVec<StkFn> {
+        let mut v = vec![];
+        for outer in MACS {
+            for inner in MACS {
+                v.push(StkFn { outer, inner });
+            }
+        }
+        v
+    }
+    fn name(self) -> String {
+        format!("{}_{}", self.outer.tag(), self.inner.tag())
+    }
+    /// the inner guard is on the parameter `a` too
+    fn same_param(self) -> bool {
+        matches!((self.outer, self.inner), (Mac::Oa, Mac::Hr) | (Mac::Hr, Mac::Oa) | (Mac::Or, Mac::Oa) | (Mac::Ha, Mac::Ha))
+    }
+    /// roles (indices) that satisfy the outer guard: "minter" (any-role: or "r2")
+    fn outer_roles(self) -> StdVec<usize> {
+        if self.outer.any() {
+            vec![0, 2]
+        } else {
+            vec![0]
+        }
+    }
+    /// roles that satisfy the inner guard: "burner" (any-role: or "r2")
+    fn inner_roles(self) -> StdVec<usize> {
+        if self.inner.any() {
+            vec![1, 2]
+        } else {
+            vec![1]
+        }
+    }
+    /// the accounts whose authorization the guards demand for the arguments (a, b)
+    fn signers(self, a: usize, b: usize) -> StdVec<usize> {
+        let mut v = vec![];
+        if self.outer.auth() {
+            v.push(a);
+        }
+        if self.inner.auth() {
+            v.push(if self.same_param() { a } else { b });
+        }
+        v.sort();
+        v.dedup();
+        v
+    }
+}
 
 const DAY: u32 = 17_280;
 /// max_entry_ttl of the long-idle family (about one year): persistent / instance entries of the
@@ -1095,6 +1340,264 @@ fn random_sequence(t: &mut Trace, rng: &mut Rng, k: u64, seed: u64, len: u64, lo
     }
 }
 
+// ------------------------------------------------------------------------------------------
+// machine `stk`: entry points stacking two role guards (label `kind=stk`)
+//   op lines   stk <outer>_<inner> a=<acct> b=<acct> auth=<signers>     stk grant|revoke a=<acct> r=<role> auth=
+//   observation  ok|err ret=<i|-> counter=<i> roles=<bits of accounts 0..N-1 for minter;burner;r2>
+// ------------------------------------------------------------------------------------------
+
+/// `ozharness::call` with TWO authorization entries per signer. The host lets one entry satisfy one
+/// `require_auth` of its address per frame; an entry point with two `only_*` guards on the same account
+/// demands that account's authorization twice, which a signer grants by signing two entries. "auth=" of
+/// the op line therefore reads: the accounts that authorize this call (as often as it asks).
+fn call_signed_twice(e: &Env, contract: &Address, func: &str, argv: Vec<Val>, signers: &[&Address]) -> Option<Val> {
+    use soroban_sdk::testutils::{MockAuth, MockAuthInvoke};
+    let invoke = MockAuthInvoke { contract, fn_name: func, args: argv.clone(), sub_invokes: &[] };
+    let mut mocks: StdVec<MockAuth> = vec![];
+    for a in signers {
+        mocks.push(MockAuth { address: a, invoke: &invoke });
+        mocks.push(MockAuth { address: a, invoke: &invoke });
+    }
+    e.mock_auths(&mocks);
+    let r = catch(|| e.try_invoke_contract::<Val, soroban_sdk::Error>(contract, &Symbol::new(e, func), argv));
+    match r {
+        Some(Ok(Ok(v))) => Some(v),
+        _ => None,
+    }
+}
+
+/// roles of `stk::Stacked2`: 0 minter, 1 burner, 2 r2 (3 = "admin": not a role of that contract)
+const STK_ROLES: usize = 3;
+
+struct StkSim {
+    e: Env,
+    u: Universe,
+    c: Address,
+}
+
+impl StkSim {
+    fn new(t: &mut Trace, what: &str, admin: usize, start: u32) -> StkSim {
+        let e = new_env(start, 1, 3_000_000);
+        let u = Universe::new(&e, N);
+        let c = e.register(stk::Stacked2, (u.a(admin).clone(),));
+        t.seq(&format!("{} kind=stk admin={} start={}", what, admin, start));
+        StkSim { e, u, c }
+    }
+    fn holds(&self, a: usize, r: usize) -> bool {
+        let e = &self.e;
+        let sym = Symbol::new(e, &role_name(r));
+        query::<bool>(e, &self.c, "holds", args(e, [self.u.a(a).into_val(e), sym.into_val(e)])).unwrap()
+    }
+    fn holds_any(&self, a: usize, rs: &[usize]) -> bool {
+        rs.iter().any(|&r| self.holds(a, r))
+    }
+    fn counter(&self) -> i32 {
+        query::<i32>(&self.e, &self.c, "counter", args(&self.e, [])).unwrap()
+    }
+    fn observe(&self, t: &mut Trace, r: Option<Val>, returns: bool) {
+        use soroban_sdk::TryFromVal;
+        let ret = match (&r, returns) {
+            (Some(v), true) => i32::try_from_val(&self.e, v).map(|x| x.to_string()).unwrap_or("?".into()),
+            _ => "-".into(),
+        };
+        let roles: StdVec<String> = (0..STK_ROLES)
+            .map(|r| (0..N).map(|a| if self.holds(a, r) { '1' } else { '0' }).collect::<String>())
+            .collect();
+        t.obs(&format!("{} ret={} counter={} roles={}", if r.is_some() { "ok" } else { "err" }, ret, self.counter(), roles.join(";")));
+    }
+    fn call(&mut self, t: &mut Trace, f: StkFn, a: usize, b: usize, auth: &[usize]) -> bool {
+        let e = &self.e;
+        t.op(&format!("stk {} a={} b={} auth={}", f.name(), a, b, join(auth)));
+        let signers: StdVec<&Address> = auth.iter().map(|&i| self.u.a(i)).collect();
+        let argv = args(e, [self.u.a(a).into_val(e), self.u.a(b).into_val(e)]);
+        let r = call_signed_twice(e, &self.c, &f.name(), argv, &signers);
+        let ok = r.is_some();
+        self.observe(t, r, true);
+        ok
+    }
+    fn admin_op(&mut self, t: &mut Trace, name: &str, a: usize, r: usize, auth: &[usize]) -> bool {
+        let e = &self.e;
+        t.op(&format!("stk {} a={} r={} auth={}", name, a, r, join(auth)));
+        let signers: StdVec<&Address> = auth.iter().map(|&i| self.u.a(i)).collect();
+        let sym = Symbol::new(e, &role_name(r));
+        let argv = args(e, [self.u.a(a).into_val(e), sym.into_val(e)]);
+        let r = call_signed_twice(e, &self.c, name, argv, &signers);
+        let ok = r.is_some();
+        self.observe(t, r, false);
+        ok
+    }
+    fn grant(&mut self, t: &mut Trace, a: usize, r: usize, auth: &[usize]) -> bool {
+        self.admin_op(t, "grant", a, r, auth)
+    }
+    fn revoke(&mut self, t: &mut Trace, a: usize, r: usize, auth: &[usize]) -> bool {
+        self.admin_op(t, "revoke", a, r, auth)
+    }
+}
+
+fn without(xs: &[usize], drop: &[usize]) -> StdVec<usize> {
+    xs.iter().cloned().filter(|x| !drop.contains(x)).collect()
+}
+
+/// every stacked entry point: both guards satisfied; only the outer; only the inner; neither; the roles
+/// held but the authorization of an `only_*` guard missing (nobody / the other signer / everybody else);
+/// the same account as `a` and `b`; the second role of the any-role guards; grants and revokes by the
+/// admin, by others, by nobody
+fn stk_directed(t: &mut Trace) {
+    let all: StdVec<usize> = (0..N).collect();
+    for (i, f) in StkFn::all().into_iter().enumerate() {
+        // admin 0; for a quarter of the entry points the admin is the account X itself
+        let admin = if i % 4 == 3 { 1 } else { 0 };
+        let ad = [admin];
+        let mut s = StkSim::new(t, &format!("directed stk {}", f.name()), admin, 100);
+        let (x, y, w, z) = (1usize, 2usize, 3usize, 4usize);
+        let (or0, ir0) = (f.outer_roles()[0], f.inner_roles()[0]);
+        s.call(t, f, x, y, &all); // nobody holds anything
+        s.grant(t, x, or0, &[z]); // not the admin
+        s.grant(t, x, or0, &[]);
+        s.grant(t, x, or0, &ad);
+        s.grant(t, x, or0, &ad); // already held: accepted, no change
+        if !f.same_param() {
+            s.call(t, f, x, y, &all); // only the outer guard's condition holds
+            s.call(t, f, x, x, &all);
+            s.revoke(t, x, or0, &[x]);
+            s.revoke(t, x, or0, &ad);
+            s.grant(t, y, ir0, &ad);
+            s.call(t, f, x, y, &all); // only the inner guard's condition holds
+            s.call(t, f, y, y, &all);
+            s.grant(t, x, or0, &ad);
+            let need = f.signers(x, y);
+            s.call(t, f, x, y, &need); // both
+            s.call(t, f, x, y, &all);
+            s.call(t, f, x, y, &[]); // the roles, but nobody authorizes
+            for &n in &need {
+                s.call(t, f, x, y, &without(&need, &[n]));
+                s.call(t, f, x, y, &[n]);
+                s.call(t, f, x, y, &without(&all, &[n]));
+            }
+            s.call(t, f, x, y, &without(&all, &need));
+            s.call(t, f, y, x, &all); // each holds the other one's role
+            s.call(t, f, z, y, &all);
+            s.call(t, f, x, z, &all);
+            s.call(t, f, z, z, &all);
+            // the same account as a and b
+            s.grant(t, x, ir0, &ad);
+            s.call(t, f, x, x, &[x]);
+            s.call(t, f, x, x, &[]);
+            s.call(t, f, x, x, &[y, z]);
+            s.revoke(t, x, or0, &ad);
+            s.call(t, f, x, x, &[x]);
+            s.grant(t, x, or0, &ad);
+            s.revoke(t, x, ir0, &ad);
+            // "r2" passes the any-role guards only
+            s.grant(t, w, 2, &ad);
+            s.call(t, f, w, y, &all);
+            s.call(t, f, x, w, &all);
+            s.call(t, f, w, w, &[w]);
+            s.call(t, f, w, w, &[]);
+        } else {
+            s.call(t, f, x, y, &all); // only the outer guard's condition holds
+            s.grant(t, y, ir0, &ad);
+            s.call(t, f, y, x, &all); // only the inner guard's condition holds
+            s.call(t, f, y, y, &all);
+            s.grant(t, x, ir0, &ad);
+            let need = f.signers(x, y);
+            s.call(t, f, x, y, &need); // both
+            s.call(t, f, x, y, &all);
+            s.call(t, f, x, z, &need);
+            s.call(t, f, x, y, &[]);
+            s.call(t, f, x, y, &[y]);
+            s.call(t, f, x, y, &without(&all, &need));
+            s.call(t, f, z, x, &all); // a stranger as a, the holder as b
+            s.revoke(t, x, or0, &ad);
+            s.call(t, f, x, y, &all);
+            s.grant(t, x, or0, &ad);
+            s.revoke(t, x, ir0, &ad);
+            s.call(t, f, x, y, &all);
+            s.grant(t, w, 2, &ad);
+            s.call(t, f, w, y, &all);
+            s.call(t, f, w, y, &[w]);
+            s.call(t, f, w, y, &[]);
+        }
+        // grants / revokes need the admin's authorization and one of the three roles
+        s.grant(t, z, 3, &ad);
+        s.revoke(t, z, or0, &ad); // not held
+        s.revoke(t, x, or0, &[x, y, w, z].iter().cloned().filter(|q| *q != admin).collect::<StdVec<usize>>());
+        s.revoke(t, x, or0, &[]);
+        s.revoke(t, x, or0, &all);
+        s.call(t, f, x, y, &all);
+    }
+}
+
+fn rand_stk(t: &mut Trace, rng: &mut Rng, k: u64, seed: u64, len: u64) {
+    let admin = acct(rng);
+    let start = *rng.pick(&[2u32, 100, 5000]);
+    let mut s = StkSim::new(t, &format!("rand k={} seed={}", k, seed), admin, start);
+    let fns = StkFn::all();
+    let all: StdVec<usize> = (0..N).collect();
+    for step in 0..len {
+        let x = if step < 5 { 0 } else { rng.below(100) };
+        if x < 22 {
+            let a = acct(rng);
+            let r = if rng.chance(94) { rng.below(STK_ROLES as u64) as usize } else { 3 };
+            let auth = if step < 5 { vec![admin] } else { gen_auth(rng, Some(admin)) };
+            s.grant(t, a, r, &auth);
+        } else if x < 34 {
+            let held: StdVec<(usize, usize)> =
+                (0..N).flat_map(|a| (0..STK_ROLES).map(move |r| (a, r))).filter(|&(a, r)| s.holds(a, r)).collect();
+            let (a, r) = if !held.is_empty() && rng.chance(75) { *rng.pick(&held) } else { (acct(rng), rng.below(STK_ROLES as u64) as usize) };
+            let auth = gen_auth(rng, Some(admin));
+            s.revoke(t, a, r, &auth);
+        } else {
+            let f = *rng.pick(&fns);
+            let (orr, irr) = (f.outer_roles(), f.inner_roles());
+            let (a, b) = if f.same_param() {
+                let fit: StdVec<usize> = (0..N).filter(|&q| s.holds_any(q, &orr) && s.holds_any(q, &irr)).collect();
+                let half: StdVec<usize> = (0..N).filter(|&q| s.holds_any(q, &orr) || s.holds_any(q, &irr)).collect();
+                let a = match rng.below(10) {
+                    0..=5 if !fit.is_empty() => *rng.pick(&fit),
+                    0..=7 if !half.is_empty() => *rng.pick(&half),
+                    _ => acct(rng),
+                };
+                (a, acct(rng))
+            } else {
+                let fa: StdVec<usize> = (0..N).filter(|&q| s.holds_any(q, &orr)).collect();
+                let fb: StdVec<usize> = (0..N).filter(|&q| s.holds_any(q, &irr)).collect();
+                let a = if !fa.is_empty() && rng.chance(72) { *rng.pick(&fa) } else { acct(rng) };
+                let b = if rng.chance(12) {
+                    a
+                } else if !fb.is_empty() && rng.chance(72) {
+                    *rng.pick(&fb)
+                } else {
+                    acct(rng)
+                };
+                (a, b)
+            };
+            let need = f.signers(a, b);
+            let mut auth: StdVec<usize> = match rng.below(100) {
+                0..=49 => need.clone(),
+                50..=61 => {
+                    let mut v = need.clone();
+                    v.push(acct(rng));
+                    v
+                }
+                62..=77 if !need.is_empty() => {
+                    let drop = *rng.pick(&need);
+                    let mut v = without(&need, &[drop]);
+                    if rng.chance(50) {
+                        v.extend(without(&all, &need));
+                    }
+                    v
+                }
+                78..=86 => without(&all, &need),
+                _ => (0..N).filter(|_| rng.chance(45)).collect(),
+            };
+            auth.sort();
+            auth.dedup();
+            s.call(t, f, a, b, &auth);
+        }
+    }
+}
+
 fn main() {
     let mut t = Trace::from_args();
     let seed = seed_from_env();
@@ -1113,6 +1616,13 @@ fn main() {
     }
     for k in 0..nseq {
         random_sequence(&mut t, &mut rng, k, seed, len, false);
+    }
+    // machine `stk` after all the others (their random streams stay what they were)
+    if arg_str("--skip-directed").is_none() {
+        stk_directed(&mut t);
+    }
+    for k in 0..arg_u64("--stk-seqs", if thorough { 120 } else { 30 }) {
+        rand_stk(&mut t, &mut rng, k, seed, 44);
     }
     t.finish();
 }
